@@ -51,7 +51,7 @@ CLAUSES = {
     "err.instance_identity": {"C09"},
     "ip.wrong_skip": {"C10"},
     "ip.depth_exceeded": {"C10"},
-    "ip.marker_left_after_exit": {"C11"},
+    "ip.marker_left_after_exit": {"C11", "C10"},
     "ip.marker_lost_before_exit": {"C11", "C10"},
     "ip.view_differs": {"C11", "C10"},
     "exc.dropped": {"C11"},
